@@ -443,8 +443,22 @@ impl MemoryInstance {
             "We only allow shrinking of the heap during rollback"
         );
 
-        let stack_changes =
-            get_changes(&self.stack[..sp], &desired_memory_state.stack[..sp], 0);
+        // The current stack can be shorter than the desired one: `grow_heap_by`
+        // truncates the stack when the heap grows over its former extent. Diff the
+        // common prefix and carry the remainder of the desired stack as a change
+        // (`rollback` first resizes the stack to `sp`).
+        let common = sp.min(self.stack.len());
+        let mut stack_changes = get_changes(
+            &self.stack[..common],
+            &desired_memory_state.stack[..common],
+            0,
+        );
+        if common < sp {
+            stack_changes.push(MemorySliceChange {
+                global_start: common,
+                data: desired_memory_state.stack[common..sp].to_vec(),
+            });
+        }
 
         let heap_start = hp
             .checked_sub(self.heap_offset())
